@@ -117,11 +117,27 @@ def is_atomic_type(t):
     return '_Atomic' in t.get('qualType', '') or '_Atomic' in t.get('desugaredQualType', '')
 
 
+# calls that stay call sites (the hand-written model tables name them); any OTHER function that is defined in the unit's
+# translation unit (a helper a refactoring extracted) is inlined at its call sites: its access sites appear in the caller,
+# in the caller's branch context, with the helper's parameter names replaced by the argument paths
+KEEP_CALLS = {
+    'ringbuf': {'ringbuf_put'},
+    'messageq': set(),
+    'fibre': {'add_taint', 'fibre_run_atomic', 'list_empty', 'list_peek', 'make_runnable', 'messageq_claim', 'messageq_empty',
+              'messageq_receive', 'messageq_release', 'messageq_send', 'handle_atomic_runq', 'get_next_wakeup', 'update_current_state',
+              'handle_timerq', 'get_next_task', 'list_insert', 'list_remove', 'list_extract', 'list_insert_sorted', 'list_contains',
+              'fibre_run', 'fibre_kill', 'fibre_timeout', 'duetime_cmp'},
+}
+
+
 class FnWalker:
-    def __init__(self, fn, text, global_atomic_typedefs):
+    def __init__(self, fn, text, global_atomic_typedefs, helpers=None, depth=0, subst=None, counters=None):
+        self.helpers = helpers or {}
+        self.depth = depth
+        self.subst = subst or {}
         self.text = text
         self.sites = []
-        self.counters = {}
+        self.counters = counters if counters is not None else {}
         self.locals = set()
         self.atomic_typedefs = global_atomic_typedefs
         for c in fn.get('inner', []):
@@ -149,6 +165,8 @@ class FnWalker:
         k = n.get('kind')
         if k == 'DeclRefExpr':
             d = n.get('referencedDecl', {})
+            if d.get('id') in self.subst:              # a parameter of an inlined helper: the caller's argument path
+                return self.subst[d['id']]
             return d.get('name', '?'), d.get('id') not in self.locals
         if k == 'MemberExpr':
             p, sh = self.path(n['inner'][0])
@@ -257,6 +275,17 @@ class FnWalker:
                 self.walk(a, ctx)
             if nm.endswith('atomic_signal_fence') or nm.endswith('atomic_thread_fence'):
                 self.emit('signalFence' if 'signal' in nm else 'threadFence', '', self.order(inner[1]), 'na', ctx)
+            elif nm in self.helpers and self.depth < 6:
+                decl, body = self.helpers[nm]
+                params = [c for c in decl.get('inner', []) if c.get('kind') == 'ParmVarDecl']
+                subst = {}
+                for p_, a in zip(params, inner[1:]):
+                    pa, sh = self.path(a)
+                    if not pa.startswith('?('):
+                        subst[p_['id']] = (pa, False)      # the parameter itself is a private copy of the (already evaluated) argument; only what is reached THROUGH it (`p->field`) is shared
+                w = FnWalker(decl, self.text, set(), self.helpers, self.depth + 1, subst, self.counters)
+                w.walk(body, ctx)
+                self.sites += w.sites
             else:
                 if nm == '?indirect':
                     self.walk(inner[0], ctx)
@@ -387,12 +416,18 @@ def extract(unit):
     rel, fns, structs = UNITS[unit]
     ast, text = clang_ast(os.path.join(vlib.REPO, rel))
     found = find_functions(ast, set(fns))
+    helpers = {}
+    for c in ast.get('inner', []):
+        if c.get('kind') == 'FunctionDecl' and c.get('name') not in fns and c.get('name') not in KEEP_CALLS.get(unit, set()):
+            body = [x for x in c.get('inner', []) if x.get('kind') == 'CompoundStmt']
+            if body and not c.get('variadic'):
+                helpers[c['name']] = (c, body[0])
     funcs = []
     for fn in fns:
         if fn not in found:
             raise SkeletonError('function %s not found in %s' % (fn, rel))
         decl, body = found[fn]
-        w = FnWalker(decl, text, set())
+        w = FnWalker(decl, text, set(), helpers)
         w.walk(body, [])
         funcs.append((fn, w.sites))
     return funcs, find_fields(ast, structs)
